@@ -96,7 +96,13 @@ pub fn op_sign_fresh(n: usize, keyseed: &[u8], count: usize, threads: usize) -> 
                     let mut ok = 0;
                     for i in 0..per {
                         // same message in every call and thread for half of them
-                        let msg = if i % 2 == 0 { b"same message".to_vec() } else { format!("m{t}-{i}").into_bytes() };
+                        let msg = if i % 2 == 0 {
+                            b"same message".to_vec()
+                        } else if i % 16 == 1 {
+                            vec![t as u8; 97 + (i % 7) * 100] // longer than one hash block together with the salt
+                        } else {
+                            format!("m{t}-{i}").into_bytes()
+                        };
                         match &*k {
                             AnySk::S512(sk, pk) => {
                                 let sig = falcon512::sign(&msg, sk);
@@ -127,4 +133,25 @@ pub fn op_sign_fresh(n: usize, keyseed: &[u8], count: usize, threads: usize) -> 
     all.sort();
     all.dedup();
     format!("{} {} {} {}", total, all.len(), constant, ok)
+}
+
+/// `sign_key_after_key N seedA,seedB,…`: on one thread, for each seed in turn: generate the key pair into locals, sign,
+/// verify, drop — a verifier or signer that remembers something about "the key" across calls (by address, by variant) shows
+pub fn op_key_after_key(n: usize, seeds: &str) -> String {
+    let mut res = vec![];
+    for (i, sd) in seeds.split(',').enumerate() {
+        let seed = crate::keys::seed32(&unhex(sd));
+        let msg = [i as u8; 5];
+        let ok = if n == 512 {
+            let (sk, pk) = falcon512::keygen(seed);
+            let sig = falcon512::sign(&msg, &sk);
+            falcon512::verify(&msg, &sig, &pk)
+        } else {
+            let (sk, pk) = falcon1024::keygen(seed);
+            let sig = falcon1024::sign(&msg, &sk);
+            falcon1024::verify(&msg, &sig, &pk)
+        };
+        res.push(ok.to_string());
+    }
+    res.join(" ")
 }
